@@ -53,6 +53,30 @@ PROPS = {
     "C20": cluster(["C20"], [], []),
     "C15": cluster(["C15"], ["sendsnap", "installsnap", "commitsnap", "bootstrap"], []),
     "C06": cluster(["C06"], ["bump", "rdy", "persist", "release", "crash", "restart", "sendapp", "sendhb", "sendsnap"], ["term", "up", "dterm", "dvote", "dlog", "dcommit"]),
+    "RN": {
+        "gens": {
+            "quick": [
+                {"name": "multi-node simulation 90 runs x 1500 steps (contract-abiding traffic)", "args": ["raftnode", "--seed", "{seed}", "--runs", "90", "--steps", "1500", "--coverage", ".build/traces/RN-coverage-sim.json"]},
+                {"name": "multi-node simulation + malformed / out-of-contract stream 60 runs x 1500 steps", "args": ["raftnode", "--seed", "{seed}", "--runs", "60", "--steps", "1500", "--malformed", "--coverage", ".build/traces/RN-coverage-malformed.json"]},
+            ],
+            "thorough": [
+                {"name": "multi-node simulation 120 runs x 2500 steps, stream 0", "args": ["raftnode", "--seed", "{seed}", "--offset", "0", "--runs", "120", "--steps", "2500", "--coverage", ".build/traces/RN-coverage-sim0.json"]},
+                {"name": "multi-node simulation 120 runs x 2500 steps, stream 1", "args": ["raftnode", "--seed", "{seed}", "--offset", "1", "--runs", "120", "--steps", "2500", "--coverage", ".build/traces/RN-coverage-sim1.json"]},
+                {"name": "multi-node simulation 120 runs x 2500 steps, stream 2", "args": ["raftnode", "--seed", "{seed}", "--offset", "2", "--runs", "120", "--steps", "2500", "--coverage", ".build/traces/RN-coverage-sim2.json"]},
+                {"name": "multi-node simulation 120 runs x 2500 steps, stream 3", "args": ["raftnode", "--seed", "{seed}", "--offset", "3", "--runs", "120", "--steps", "2500", "--coverage", ".build/traces/RN-coverage-sim3.json"]},
+                {"name": "malformed / out-of-contract stream 120 runs x 2000 steps, stream 0", "args": ["raftnode", "--seed", "{seed}", "--offset", "0", "--runs", "120", "--steps", "2000", "--malformed", "--coverage", ".build/traces/RN-coverage-malformed0.json"]},
+                {"name": "malformed / out-of-contract stream 120 runs x 2000 steps, stream 1", "args": ["raftnode", "--seed", "{seed}", "--offset", "1", "--runs", "120", "--steps", "2000", "--malformed", "--coverage", ".build/traces/RN-coverage-malformed1.json"]},
+            ],
+        },
+        "rule": "shared engine, not a property: FREE-RUNNING correspondence of ONE raft node. `rvh raftnode` simulates clusters of real RawNode<MemStorage> (1-5 voters, 0-2 learners, 0-2 spare nodes, optional initial joint configuration, optional common log prefix / snapshot point / hard state, per-run knobs pre_vote, check_quorum, batch_append, skip_bcast_commit, priority, max_inflight_msgs 1-4 or 256, max_size_per_msg 0 / 20-100 / unlimited, max_uncommitted_size small or unlimited, read_only_option Safe / LeaseBased, max_committed_size_per_ready, max_apply_unpersisted_log_limit, disable_proposal_forwarding, min/max election tick) under one seeded scheduler: tick, deliver / duplicate / drop / reorder any in-flight message, isolate nodes, propose (payload sizes 0..150), propose_conf_change V1 and V2 (add / remove / learner, 0-3 changes, auto / implicit / explicit, empty = leave joint), read_index, transfer_leader, campaign, ping, request_snapshot, report_unreachable, report_snapshot, storage compaction up to the applied index (followers then need MsgSnapshot), runtime knob changes (set_priority, set_batch_append, skip_bcast_commit, set_check_quorum, adjust_max_inflight_msgs incl. 0, maybe_free_inflight_buffers, group commit enable / assign / clear / check, max_apply_unpersisted_log_limit incl. u64::MAX, max_committed_size_per_ready, MemStorage unavailability triggers), restarts from the node's own storage, healthy bursts, and an emulated application (storage append + stable_entries, on_persist_entries incl. stale notices, snapshot install, apply_conf_change + reduce_uncommitted_size + commit_apply, draining raft.msgs) whose steps are delayed by random numbers of calls. Each node records its own call sequence with the exact messages it received; the Lean driver re-executes the sequence on the model RaftModel.Raft* from the same Config + storage and after EVERY call compares: result (ok / error kind / panic), the whole message queue (16 protobuf fields, entries with payload bytes, stable-sorted by receiver), term, vote, role, leader_id, commit, applied, persisted, first/last index, last term, pending_conf_index, lead_transferee, election_elapsed, heartbeat_elapsed, randomized timeout, promotable, pending_request_snapshot, uncommitted size, apply limit, priority, unstable offset / length / snapshot, storage first / last, group_commit, max_committed_size_per_ready, tracker max_inflight, voter halves, read_states, the read-only queue (ctx, index, origin, acks), per-peer progress (matched, next, state, paused, pending_snapshot, pending_request_snapshot, recent_active, inflights count / full, commit group, committed index), votes, and the ConfState. The model is never re-synchronised: one disagreement ends the node's sequence. The second stream adds messages nobody sent (all 19 types incl. local ones, unknown / zero / own sender ids, terms 0 / lower / higher / u64::MAX, indexes around the log bounds, arbitrary snapshots, damaged or random ConfChange / ConfChangeV2 payloads) offered to RawNode::step (with its filter) or to Raft::step directly. The generator prints its coverage histogram (message types delivered per role, operations, result kinds, emitted message kinds, role / progress-state transitions) on stderr and into .build/traces/RN-coverage-*.json. distinct = distinct (observation before, call) pairs",
+        "trusted_base": LEAN_TB,
+        "assumptions": [
+            "the storage is MemStorage; its model is the one of C19, RaftLog the one of C14, Inflights C18, quorum arithmetic C11, conf-change algebra C12",
+            "hash-order dependent emission order (bcast_append, bcast_heartbeat, campaign, post_conf_change) is canonicalised by a stable sort of the message queue by receiver; the MemStorage snapshot-unavailable trigger is only used with a single peer (which peer meets it would depend on hash order)",
+            "rand: the value reset_randomized_election_timeout draws is an input of each call (the harness overrides the draw through set_randomized_election_timeout and logs it; with the usual huge max_election_tick a reset is always noticed)",
+            "not modelled: logging (including the panics a log statement's arguments could raise), u64 overflow of counters other than the sites an input can reach (term + 1, n + 1 in maybe_update, match_hint + 1, last + 1 in optimistic_update), RawNode's Ready bookkeeping (ready / advance / on_persist_ready / has_ready), on_entries_fetched, Status, the get_entries_context bookkeeping of MemStorage",
+        ],
+    },
     "C11": {
         "stateless": True,
         "gens": {
